@@ -138,6 +138,8 @@ def body_list(desc, F, *args):
             exp = _do(lambda: model.extend([m1, m2]))
         elif kind == "set":
             i, m = xs[0], F.lit(xs[1])
+            if desc.get("skip_set_at_len") and i == len(model):
+                return None  # residual check: the recorded finding (c[len(c)] = x) is excluded from the inputs
             got = _do(lambda: c.__setitem__(i, m))
             exp = _do(lambda: model.__setitem__(i, m))
         elif kind == "del":
@@ -297,4 +299,16 @@ def bounds(tier):
 
 def finding_key(ob, cex, reason):
     import re
+    if ob["desc"].get("skip_set_at_len"):
+        return "%s|residual|%s" % (ob["family"], re.sub(r"\d+", "N", reason))
     return "%s|%s" % (ob["family"], re.sub(r"\d+", "N", reason))
+
+
+def residual(ob):
+    """obligations containing an item assignment hit the recorded finding 'c[len(c)] = x does not raise';
+    re-check them with exactly that input (index == current length) excluded"""
+    if ob["family"] == "list" and "set" in ob["desc"]["ops"] and not ob["desc"].get("skip_set_at_len"):
+        o2 = dict(ob)
+        o2["desc"] = dict(ob["desc"], skip_set_at_len=True)
+        return o2
+    return None
